@@ -44,6 +44,7 @@ var Quirks = []Quirk{
 	{ID: "C01-result-type-response-cookie-with-default", Detect: hasResultTypeCookieWithDefault, SigAny: []string{"server/encode_decode: declared and not used"}},
 	{ID: "C01-map-key-bool-or-float-gen-fails", Detect: hasBoolOrFloatMapKey, SigAny: []string{"gen-error"}},
 	{ID: "C01-body-attr-recursive-validated-user-type", Detect: hasBodyAttrRecursiveValidatedUT, SigAny: []string{"client/cli: undefined: _"}},
+	{ID: "C01-streaming-payload-validated-alias", Detect: hasStreamingPayloadValidatedAlias, SigAny: []string{"server/types: invalid operation: _ != nil (mismatched types", "client/types: invalid operation: _ != nil (mismatched types"}},
 	{ID: "C01-bytes-param-with-length-validation", Detect: hasBytesParamWithLength, SigAny: []string{"client/cli: undefined: _"}},
 	{ID: "C01-result-type-required-validated-response-header", Detect: hasResultTypeRequiredValidatedHeader, SigAny: []string{"client/encode_decode: invalid operation: _ != nil (mismatched types"}},
 }
@@ -246,6 +247,51 @@ func BodyAttrRecursiveValidatedUT(d *m.Design, meth *m.Method) bool {
 
 func hasBodyAttrRecursiveValidatedUT(d *m.Design) bool {
 	return eachMethod(d, func(s *m.Service, meth *m.Method) bool { return BodyAttrRecursiveValidatedUT(d, meth) })
+}
+
+// RefsValidatedAlias: the attribute's type reaches (through objects, arrays,
+// maps and user types) a primitive alias user type that carries validations.
+func RefsValidatedAlias(d *m.Design, a *m.Attr) bool {
+	seen := map[string]bool{}
+	var walk func(a *m.Attr, top bool) bool
+	walk = func(a *m.Attr, top bool) bool {
+		if a == nil || a.Type == nil {
+			return false
+		}
+		switch a.Type.Kind {
+		case m.User:
+			ut := d.TypeByName(a.Type.User)
+			if ut == nil || ut.Attr == nil || seen[ut.Name] {
+				return false
+			}
+			seen[ut.Name] = true
+			k := ut.Attr.Type.Kind
+			if k != m.Object && k != m.User && !top && !ut.Attr.V.Empty() {
+				return true
+			}
+			return walk(ut.Attr, false)
+		case m.Array:
+			return walk(a.Type.Elem, false)
+		case m.Map:
+			return walk(a.Type.Key, false) || walk(a.Type.Val, false)
+		case m.Object, m.Union:
+			for _, f := range a.Type.Fields {
+				if walk(f.Attr, false) {
+					return true
+				}
+			}
+		}
+		return false
+	}
+	return walk(a, true)
+}
+
+// hasStreamingPayloadValidatedAlias: an HTTP streaming payload whose type
+// refers to a primitive alias user type with validations.
+func hasStreamingPayloadValidatedAlias(d *m.Design) bool {
+	return eachMethod(d, func(s *m.Service, meth *m.Method) bool {
+		return meth.HTTP != nil && meth.StreamingPayload != nil && RefsValidatedAlias(d, meth.StreamingPayload)
+	})
 }
 
 // hasBytesParamWithLength: a Bytes attribute with a length validation carried
